@@ -1,5 +1,6 @@
 """C10 — unreadable input is an error, never a silently shortened report."""
 from .. import spec
+from .. import core as _core
 from ..gen import G
 from ..common import run_apps, app, out_of, sig, base_files
 from ..core import unhx
@@ -147,6 +148,38 @@ def run(ctx):
             ctx.problem('oracle', '`%s` reports success although %s has a line longer than the scanner can read' % (c.meta['kind'], c.meta['target']), c,
                         {'out': out_of(i).decode('utf-8', 'replace')[:600]}, signature='scanner-err-ignored')
         ctx.mark_nontrivial((sig(c.files), c.meta['kind'], c.meta['target'], 'long'))
+    # inputs that are not regular files: a named pipe delivers its bytes but reports size 0; every command reads it like the file
+    binary = ctx.real()
+    pbook = b'soup:\n  calories: 40\n  fat: 2\nbread:\n  calories: 80\n'
+    plog = b'2021/01/24:\n  soup: 2\n  bread: 1\n2021/01/25:\n  bread: 3\n'
+    npipe = 0
+    base = ['--today', '2021/01/28', '--no-color']
+    for argv in (['reg'], ['bal'], ['csv', 'log'], ['print'], ['report', 'totals'], ['report', 'quantity'], ['report', 'element-total', 'calories'], ['csv', 'database'],
+                 ['csv', 'database-resolved'], ['summary', '2021/01/24'], ['stats'], ['lint', 'p.yaml']):
+        for role in ('log', 'book'):
+            if argv[0] == 'lint':
+                plain = _core.run_real_binary(binary, base + ['lint', 'p.yaml'], {b'p.yaml': plog})
+                piped = _core.run_real_binary(binary, base + ['lint', 'p.yaml'], {}, fifos={'p.yaml': plog})
+            elif role == 'log':
+                plain = _core.run_real_binary(binary, base + ['-l', 'p.yaml'] + argv, {b'food.yaml': pbook, b'p.yaml': plog})
+                piped = _core.run_real_binary(binary, base + ['-l', 'p.yaml'] + argv, {b'food.yaml': pbook}, fifos={'p.yaml': plog})
+            else:
+                plain = _core.run_real_binary(binary, base + ['-d', 'p.yaml'] + argv, {b'log.yaml': plog, b'p.yaml': pbook})
+                piped = _core.run_real_binary(binary, base + ['-d', 'p.yaml'] + argv, {b'log.yaml': plog}, fifos={'p.yaml': pbook})
+            npipe += 2
+            if (plain[0], plain[1]) != (piped[0], piped[1]):
+                ctx.problem('oracle', '`%s` with the %s read from a named pipe does not give the report it gives for the same bytes in a regular file (exit status %d vs %d)' % (
+                    ' '.join(argv), role, piped[0], plain[0]), None, {'pipe': piped[1].decode('utf-8', 'replace')[:400], 'file': plain[1].decode('utf-8', 'replace')[:400]}, signature='pipe-input')
+    # a recipe book of more than 4 MiB is read to its end (element-total lists what the resolved book has)
+    big = b''.join(b'r%06d:\n  calories: 1\n' % i for i in range(190000))          # 4.5 MB
+    rc1, out1, err1 = _core.run_real_binary(binary, base + ['report', 'element-total', 'calories'], {b'food.yaml': big, b'log.yaml': b''}, timeout=120)
+    rc2, out2, err2 = _core.run_real_binary(binary, base + ['csv', 'database'], {b'food.yaml': big, b'log.yaml': b''}, timeout=120)
+    npipe += 2
+    if rc1 != 0 or rc2 != 0 or out1.count(b'\n') != 190000 or out2.count(b'\n') != 190000:
+        ctx.problem('oracle', 'a recipe book of %d bytes with 190000 recipes: `report element-total` lists %d rows (exit %d), `csv database` %d rows (exit %d)' % (
+            len(big), out1.count(b'\n'), rc1, out2.count(b'\n'), rc2), None, {}, signature='large-book-cut')
+    ctx.evaluations += npipe
+    ctx.notes.append('%d runs of the untagged binary with named pipes as inputs and with a 4.5 MB recipe book' % npipe)
     ctx.sample({'cmd': acases[1].shell(), 'readFail': acases[1].read_fail and {k.decode(): v for k, v in acases[1].read_fail.items()}})
     # --- real binary: a directory given as log file, a missing file
     from .. import core
